@@ -77,6 +77,8 @@ inductive FOp
   | clone (i : Nat)
   /-- `replayer[rep].Put(m, topics)`; even `rep` = automatic IDs, odd = IDs required -/
   | put (i : Nat) (rep : Nat)
+  /-- `m.UnmarshalText(p)`: the receiver is reset (its slice becomes nil) and refilled by `append` -/
+  | unmarshal (i : Nat) (p : Bytes)
 deriving Repr
 
 inductive PutRes
@@ -130,6 +132,17 @@ def FamState.ensureID (st : FamState) (i : Nat) (rep : Nat) : FamState :=
                   ctr := fun r => if r = rep then st.ctr rep + 1 else st.ctr r,
                   puts := st.puts ++ [.fresh st.fam.length] }
 
+/-- `Message.UnmarshalText` on member `i`: `reset()` makes the slice nil, the parsed chunks are appended
+one by one (the first append allocates a fresh array), the fields are those of the parsed message -/
+def FamState.unmarshal (extra : Nat → Nat) (st : FamState) (i : Nat) (p : Bytes) : FamState :=
+  match st.fam[i]? with
+  | none => st
+  | some _ =>
+    let r := (Message.unmarshalText p).1
+    let m0 : HMsg := { sl := {}, id := r.id, typ := r.typ, retry := r.retry }
+    let a := happendAll extra st.heap m0.sl r.chunks
+    { st with heap := a.1, fam := st.fam.set i { m0 with sl := a.2 } }
+
 def FamState.step (extra : Nat → Nat) (st : FamState) : FOp → FamState
   | .appendData i s => st.appendText extra i false s
   | .appendComment i s => st.appendText extra i true s
@@ -141,6 +154,7 @@ def FamState.step (extra : Nat → Nat) (st : FamState) : FOp → FamState
     | none => st
     | some m => { st with fam := st.fam ++ [m.clone] }
   | .put i rep => st.ensureID i rep
+  | .unmarshal i p => st.unmarshal extra i p
 
 def FamState.run (extra : Nat → Nat) (st : FamState) (ops : List FOp) : FamState := ops.foldl (FamState.step extra) st
 
